@@ -182,7 +182,9 @@ func peekBelief(c *Ctx, rule string, floor int) {
 			pk := in.(*ssa.Call)
 			o.Site(in.Pos(), "peek() in %s", fname(f))
 			nonNil := func(at ssa.Instruction) bool {
-				return hasFact(at, func(ft fact) bool { return nilFact(ft, func(v ssa.Value) bool { return sameOrigin(v, ssa.Value(pk)) }, false) })
+				return hasFact(at, func(ft fact) bool {
+					return nilFact(ft, func(v ssa.Value) bool { return sameOrigin(v, ssa.Value(pk)) }, false)
+				})
 			}
 			for _, rf := range *pk.Referrers() {
 				switch x := rf.(type) {
